@@ -3,7 +3,11 @@
 use std::{env, fs, path::PathBuf};
 
 fn main() {
-    let src_path = "/repo/src/engine/engine_neon.rs";
+    // RSV_REPO is only set by the mutation-testing lanes (tools/mutate.py); checks always use /repo
+    println!("cargo:rerun-if-env-changed=RSV_REPO");
+    let repo = env::var("RSV_REPO").unwrap_or_else(|_| "/repo".to_string());
+    let src_path = format!("{repo}/src/engine/engine_neon.rs");
+    let src_path = src_path.as_str();
     println!("cargo:rerun-if-changed={src_path}");
     println!("cargo:rerun-if-changed=build.rs");
 
